@@ -41,7 +41,7 @@ func Verif_C20_D4_Keys() {
 		{remoteexecution.DigestFunction_MD5, remoteexecution.DigestFunction_MD5},
 	}
 	type sp struct{ a, b int64 }
-	spairs := []sp{{42, 42}, {4, 42}, {0, 0}}
+	spairs := []sp{{42, 42}, {4, 42}, {0, 0}, {42, 43}, {42, 52}}
 	if vnd.Thorough() {
 		spairs = append(spairs, sp{1, 10}, sp{9223372036854775807, 922337203685477580})
 	}
